@@ -456,7 +456,13 @@ def run_job(job):
 def replay(job, v):
     npts, caps = tuple(job['npts']), tuple(job['caps'])
     fn = fly_path(npts, caps, user_mass=job.get('user_mass', False), may_fail=job.get('may_fail', True), resample=job.get('resample', True), track=job.get('track', 'real'), narrow=job.get('narrow', False))
-    run = sx.ConcreteRun(v['values'])
+    values = dict(v['values'])
+    if job.get('track', 'real') == 'real' and values.get('inv0_dist') is not None and 0.0 < float(values['inv0_dist']) < 1.9e7:
+        # the route length chosen by the solver for the geodesic oracle is realised with real airports on the equator
+        # (WGS-84: one radian of longitude on the equator is the equatorial radius), so the replay runs on real pyproj
+        import math
+        values.update(o_lon=0.0, o_lat=0.0, d_lat=0.0, d_lon=math.degrees(float(values['inv0_dist']) / 6378137.0))
+    run = sx.ConcreteRun(values)
     res, exc = run.run(fn)
     if exc is not None:
         return False, f'harness raised {exc!r}'
